@@ -49,6 +49,12 @@ type WatchAct struct {
 }
 
 type FakeServer struct {
+	// InPlace: the watch source keeps one object per key, rewrites it in place for every change and sends
+	// the same pointer again (an in-memory fake does that).  Only sound for a driver that lets every event
+	// propagate completely before the next mutation.
+	InPlace bool
+	ptrs    map[string]*corev1.Pod
+
 	mu                 sync.Mutex
 	tr                 *Tracer
 	rv                 int
@@ -121,6 +127,25 @@ func (s *FakeServer) Set(k string, l int) MObj {
 		return s.apply(watch.Modified, k, l)
 	}
 	return s.apply(watch.Added, k, l)
+}
+
+func (s *FakeServer) frameObj(o MObj) *corev1.Pod {
+	np := mkPod(o.K, o.V, o.L)
+	if !s.InPlace {
+		return np
+	}
+	s.mu.Lock()
+	defer s.mu.Unlock()
+	if s.ptrs == nil {
+		s.ptrs = map[string]*corev1.Pod{}
+	}
+	p := s.ptrs[o.K]
+	if p == nil {
+		s.ptrs[o.K] = np
+		return np
+	}
+	*p = *np
+	return p
 }
 
 func (s *FakeServer) Delete(k string) bool {
@@ -418,7 +443,7 @@ func (w *fakeWatch) hw_pump() {
 				}
 				for j := 0; j < n; j++ {
 					desc := fmt.Sprintf(`"wt":%q,"o":{"k":%q,"v":%d,"l":%d},"kind":"obj"`, string(ev.Type), ev.O.K, ev.O.V, ev.O.L)
-					if !w.send(watch.Event{Type: ev.Type, Object: mkPod(ev.O.K, ev.O.V, ev.O.L)}, desc) {
+					if !w.send(watch.Event{Type: ev.Type, Object: w.s.frameObj(ev.O)}, desc) {
 						return
 					}
 				}
